@@ -319,7 +319,9 @@ impl<'a> Chk<'a> {
             x += 1;
         }
         // (c) compare with the closest aligned interval at or before the trigger
-        let mut best: Option<(usize, i128, Content)> = None;
+        // closest = fewest differing entries; among those prefer an explanation that needs only
+        // one kind of error (nothing foreign, or nothing missing), then the newest interval
+        let mut best: Option<((usize, usize), i128, Content)> = None;
         let lo_c = ((m - w).max(0) / s) * s;
         let hi_c = (mx + 2 * w + s).min(t as i128);
         let mut c = lo_c;
@@ -331,7 +333,9 @@ impl<'a> Chk<'a> {
         cands.push((t as i128 / s) * s);
         for c in cands {
             let e = self.content(upto, w, c);
-            let d = symdiff(&e, r);
+            let foreign_n = r.iter().filter(|x| !e.iter().any(|y| y.0 == x.0)).count();
+            let missing_n = e.iter().filter(|x| !r.iter().any(|y| y.0 == x.0)).count();
+            let d = (symdiff(&e, r), (foreign_n > 0) as usize + (missing_n > 0) as usize);
             if best.as_ref().map(|b| d < b.0 || (d == b.0 && c > b.1)).unwrap_or(true) {
                 best = Some((d, c, e));
             }
@@ -681,9 +685,10 @@ fn exhaustive(ctx: &mut Ctx, name: &str, full: bool, len: usize, prefix: usize, 
             }
         }
     }
-    // interleave the (w, s) blocks over the case numbers so that a budget stop loses breadth evenly
+    // fixed permutation of the blocks (independent of the seed) so that a budget stop loses breadth evenly
+    Rng::new(0xC09).shuffle(&mut cases);
     ctx.phase(name, cases.len() as u64);
-    ctx.note("exhaustive_sub_spaces", &format!("{}: widths 1..5 x slides 1..5 x all in-order streams of exactly {} arrivals (hence every shorter prefix) with gaps (first one from 0) in {} x 3 strategy lists", name, len, if full { "0..=width+2" } else { "{0,1,slide,slide+1,width,width+2}" }));
+    ctx.note("exhaustive_sub_spaces", &format!("{}: widths 1..5 x slides 1..5 x all in-order streams of exactly {} arrivals (hence every shorter prefix) with gaps (first one from 0) in {} x {} through WindowRunner (+ one rotating strategy list through a bare callback/channel consumer)", name, len, if full { "0..=width+2" } else { "{0,1,slide,slide+1,width,width+2}" }, if full && len == 6 { "strategy lists [OnWindowClose], [OnWindowClose,NonEmptyContent]" } else { "3 strategy lists" }));
     let mut complete = true;
     while let Some(k) = ctx.next_case() {
         if !ctx.within(share) {
@@ -710,8 +715,13 @@ fn exhaustive(ctx: &mut Ctx, name: &str, full: bool, len: usize, prefix: usize, 
             // every (stream, strategy list) through the WindowRunner (callback + channel at once);
             // additionally one strategy list (rotating) through one of the bare consumers
             let extra_mode = if (leaf / 3) % 2 == 0 { Mode::Callback } else { Mode::Channel };
+            // (the large quick-tier full-gap enumeration leaves the swapped strategy order to the rotating run)
             let runs = [(0usize, Mode::Runner), (1, Mode::Runner), (2, Mode::Runner), ((leaf % 3) as usize, extra_mode)];
+            let skip_swapped = full && len == 6;
             for (strat, mode) in runs {
+                if skip_swapped && strat == 2 && mode == Mode::Runner {
+                    continue;
+                }
                 let (viol, st) = run_one(ctx, w, s, strat, mode, &evs, false, h, true, mk_u32, id_u32);
                 if mode == Mode::Runner && strat == 0 {
                     ctx.count("streams_enumerated", 1);
@@ -933,7 +943,9 @@ fn main() {
         "the completeness clause is evaluated after every arrival of every stream prefix whose consecutive timestamps are all at most one slide apart, with the reports seen so far",
         "an empty report matches any empty aligned interval at or before the trigger (including the one closing at 0)",
         "flush() (union of all open windows at end of stream) is not a timestamp-triggered report and is not driven",
-        "timestamps >= 2^53 are driven only with slides of at least 4 ulps of the f64 magnitude; smaller slides make scope() loop forever, which no logical-time oracle can observe",
+        "timestamps >= 2^53 (phase big_ts) are driven only with slides of at least 4 ulps of the f64 magnitude; smaller slides make scope() loop forever, which no logical-time oracle can observe (reproduce by hand: KV_C09_PROBE_SPIN=54 timeout 10 harness/target/debug/c09 -> exit 124)",
+        "in phase big_ts every stream is run twice, at >= 2^53 and shifted down by a multiple of the slide (same alignment); a failure of the high copy alone gets the single signature wrong_reports_only_when_timestamps_reach_2^53, a failure of the control copy is reported under its ordinary signature",
+        "a report equal to an older closed interval (not the newest one) satisfies the property as stated and is only counted (reports_equal_to_an_older_interval_only)",
         "trusted base: std mpsc/thread, the monitor's interval scan",
     ];
     spec.quick_budget_s = 75;
